@@ -21,3 +21,16 @@
         assert!(r.is_ok() == e);
         core::mem::forget(r);
     }
+    // trait shim vx_io (all codec units): `res.map_err(insufficient_data(tag))`: Ok(v) stays Ok(v), Err becomes Err.  REAL insufficient_data.
+    #[kani::proof]
+    #[kani::unwind(4)]
+    #[kani::stub(alloc::fmt::format, fmt_stub)]
+    fn shim_vx_io_map_err() {
+        let v: u64 = kani::any();
+        let r: std::io::Result<u64> = if kani::any() { Ok(v) } else { Err(std::io::Error::from(std::io::ErrorKind::UnexpectedEof)) };
+        let was_ok = r.is_ok();
+        let m = r.map_err(insufficient_data("tag"));
+        assert!(m.is_ok() == was_ok);
+        if let Ok(x) = &m { assert!(*x == v); }
+        core::mem::forget(m);
+    }
